@@ -26,10 +26,19 @@ impl Builder {
         let format = self.format.or_else(|| Format::detect(&raw));
 
         let reader = &mut &raw[..];
-        match format {
+        let scs = match format {
             Some(Format::Text) => text::read_scs(reader),
             Some(Format::Npy) => Array::read_npy(reader).map(Scs::from),
             None => Err(io::Error::new(io::ErrorKind::InvalidData, "invalid format")),
+        }?;
+
+        if scs.dimensions() == 0 || scs.elements() == 0 {
+            Err(io::Error::new(
+                io::ErrorKind::InvalidData,
+                "spectrum must have at least one dimension and no empty dimensions",
+            ))
+        } else {
+            Ok(scs)
         }
     }
 
